@@ -31,6 +31,9 @@ pub struct ResponsePlan {
     pub fragments: Vec<(u64, Vec<u8>)>,
     pub end: BodyEnd,
     pub end_delay_ns: u64,
+    /// after the fragments: this many more fragments of this size, produced lazily (a server
+    /// that keeps sending); (fragment size, count)
+    pub tail: Option<(usize, u64)>,
 }
 
 impl ResponsePlan {
@@ -42,6 +45,7 @@ impl ResponsePlan {
             fragments: Vec::new(),
             end: BodyEnd::Eof,
             end_delay_ns: 0,
+            tail: None,
         }
     }
 }
